@@ -213,6 +213,14 @@ def safely(res, rule, site, fn, *args, **kwargs):
         res.ob(rule, site, 'undecided: construct not modelled', True, str(e))
         res.notes.append('%s %s: undecided - %s' % (rule, site, e))
         return None
+    except AnalysisError as e:
+        # an anchor of this rule group vanished: the other groups still run; the check ends as analysis-broken (exit 2) unless one
+        # of them finds a violation, which is reported instead (run_check looks at res.deferred_errors)
+        if not hasattr(res, 'deferred_errors'):
+            res.deferred_errors = []
+        res.deferred_errors.append(e)
+        res.notes.append('%s %s: analysis error - %s' % (rule, site, e))
+        return None
 
 
 def borrow(res, rule, what, fn, *args, **kwargs):
